@@ -304,6 +304,8 @@ def gen_op(rng, depth, dmax, defects):
         n = rng.randint(1, dmax)
         sym = rng.random() < 0.6
         e = ['LBase', rsm(rng, n, n, nonneg=True, symmetric=sym), rng.choice([0, 0, 1, 0.5, 2]), rng.random() < 0.5]
+        if e[3] and (n > 4 or rng.random() < 0.5):
+            square_degrees(e[1], e[2])     # exact square roots keep the rationals of the model small
         for _ in range(rng.choice([0, 1, 1, 2])):
             t = rng.choice(['LT', 'LT', 'LAstype'])
             if t == 'LT' and not defects and not is_sym(e_base(e)[1]):
@@ -315,6 +317,26 @@ def gen_op(rng, depth, dmax, defects):
         return {'cls': 'cn', 'e': e}, shp
     n = rng.randint(1, dmax)
     return {'cls': 'pl', 'e': gen_pl(rng, min(depth, 3), n)}, (n, n)
+
+
+def square_degrees(m, reg):
+    """raise the diagonal so that every non-null (row sum + reg) is the square of a half-integer (np.sqrt is then exact)"""
+    d = dense_of(m)
+    for i, row in enumerate(d):
+        t = sum(row) + fr(reg)
+        if t == 0:
+            continue
+        k = 0
+        while Fraction(k * k, 4) < t:
+            k += 1
+        add = Fraction(k * k, 4) - t
+        if add > 0:
+            hit = [e for e in m['coo'] if e[0] == i and e[1] == i]
+            if hit:
+                hit[0][2] = float(fr(hit[0][2]) + add)
+            else:
+                m['coo'].append([i, i, float(add)])
+    m['coo'].sort()
 
 
 def e_base(e):
